@@ -31,3 +31,33 @@ Proof.
   - intros x [<-|[<-|[]]]; cbn; tauto.
   - cbn; tauto.
 Qed.
+
+(* The same on a table with one nested sequence level (model/Nested.v: values are trees, a sequence cell holds its inner rows).
+   For every such table, every list of well-shaped source rows and every chain - any length, order and repetition - of
+   outer-column filters, inner-column filters, column selections, child selections (the inner sequence, then its own columns or
+   one of them), record indices and slices: iterating the stream gives the normal form BY NAME - the source rows that pass all
+   the outer filters, the inner rows of every record that pass all the inner filters, seen through the selections in order, then
+   sliced in order.  wf_nops: a selection names columns visible at that point. *)
+From PydapV Require Import Nested NestedProofs.
+Theorem C17_nested_normal_form : forall t spos rows ops d,
+  index_of (sq t) (ohd t) = Some spos -> NoDup (ohd t) -> NoDup (ihd t) ->
+  Forall (okrow t spos) rows ->
+  wf_nops t (MOuter (ohd t)) ops -> napply_ops t (nfresh t rows) ops = Some d ->
+  niter spos d = nspec t spos rows ops.
+Proof. intros t spos rows ops d H1 H2 H3. exact (nested_normal_form t spos H1 H2 H3 rows ops d). Qed.
+Print Assumptions C17_nested_normal_form.
+
+Example C17_nested_ex :
+  let t := mkTable ["id"; "in"; "z"]%string "in"%string ["x"; "y"]%string in
+  let rows := [TN [TL 1; TN [TN [TL 10; TL 11]; TN [TL 20; TL 21]]; TL 7]; TN [TL 2; TN []; TL 8]; TN [TL 3; TN [TN [TL 30; TL 31]]; TL 9]] in
+  let ops := [NChild "in"%string; NIFilt "x"%string RGt (OConst 15); NCols ["y"]%string; NOFilt "id"%string RLt (OConst 3)] in
+  index_of (sq t) (ohd t) = Some 1%nat /\ NoDup (ohd t) /\ NoDup (ihd t) /\ Forall (okrow t 1) rows /\
+  wf_nops t (MOuter (ohd t)) ops /\
+  option_map (niter 1) (napply_ops t (nfresh t rows) ops) = Some [TN [TN [TL 21]]; TN []] /\
+  nspec t 1 rows ops = [TN [TN [TL 21]]; TN []].
+Proof.
+  cbn zeta. split; [reflexivity|]. split; [repeat constructor; cbn; intuition discriminate|].
+  split; [repeat constructor; cbn; intuition discriminate|].
+  split; [repeat constructor|]. split; [|split; vm_compute; reflexivity].
+  cbn. repeat split; try (left; reflexivity); try (right; left; reflexivity); intros x [<-|[]]; cbn; tauto.
+Qed.
